@@ -57,7 +57,6 @@ TRUSTED beyond filter's (each external_body / assume_specification in the genera
                               assumed: reserved == 1, root id = (base, 0), encoding stored.  R-FIELDS projects write::Unit to
                               {base_id, encoding, reserved, root} (the only fields root/reserve/encoding touch)
   LineProgram (MODEL type), LineProgram::none     opaque argument of Unit::new
-  HashMap::default            std; model: the empty map (vstd specifies HashMap::new only)
   R-FIELDS: write::Dwarf projected to {units}; FilterUnitSection.unit_headers dropped (untouched by new_with_filter)
   R-SELF call site: `filter.deps.get_reachable()` -> `get_reachable(filter.deps)` (filter's R-SELF free fn)
 
@@ -77,7 +76,7 @@ from batches import filter as fbase
 
 # `filter_attributes` (FilterUnit impl) is not part of this build
 TRUSTED = [t for t in fbase.TRUSTED if t != 'filter_attributes'] + [
-    'root_offset', 'new', 'LineProgram', 'none', 'std::collections::HashMap::<K1, V>::default',
+    'root_offset', 'new', 'LineProgram', 'none',
 ]
 VERUS_ARGS = ['--rlimit', '40']
 CONVERT = fbase.CONVERT
@@ -196,37 +195,54 @@ def populate_read_offsets(ctx, sk):
     sk.add('read::unit', uso)
 
 
-SPEC_CONVERT = '''
-    // ---- ghost accessors / table invariant of the reservation (vx/batches/filter_reserve.py)
+def reserve_clauses(FR, OR, FI, OI, FW, OW, FB, OB, U, OFF):
+    """the postconditions of reserve_unit, over explicit before/after tables (used twice: as the `ensures` of the function
+    and as the spec fn `reserve_post` that the step lemma of new_with_filter consumes - same text, generated once)"""
+    ID = f'{FR}.last().1'
+    N0 = f'{OW}.len()'
+    NEW = f'{FW}[{N0} as int]'
+    RK = f'root_key({U}.header)'
+    return [
+        f'[C19:reserve-unit-logged] {FR} == {OR}.push(({U}, {ID})) && {ID}.base() == {OB} && {ID}.ix() == {N0}',
+        f'[C19:reserve-unit-logged] {FW}.len() == {N0} + 1 && {FB} == {OB} && forall|i: int| 0 <= i < {N0} ==> #[trigger] {FW}[i] == {OW}[i]',
+        f'[C19:reserve-root] {OFF}.contains({RK}) || ({FI}.contains_key({RK}) && {FI}[{RK}] == ({ID}, {NEW}.root_id()))',
+        f'[C19:reserve-offsets] forall|j: int| 0 <= j < {OFF}.len() ==> {FI}.contains_key(#[trigger] {OFF}[j])',
+        f'[C19:reserve-offsets] {OFF}.no_duplicates() ==> forall|j: int| 0 <= j < {OFF}.len() ==> '
+        f'{FI}[#[trigger] {OFF}[j]].0 == {ID} && {FI}[{OFF}[j]].1.base() == {NEW}.ubase() && {FI}[{OFF}[j]].1.ix() == 1 + j',
+        f'[C19:reserve-only] {NEW}.nreserved() == 1 + {OFF}.len()',
+        f'[C19:reserve-only] forall|k: K| #[trigger] {FI}.contains_key(k) ==> {OI}.contains_key(k) || k == {RK} || {OFF}.contains(k)',
+        f'[C19:reserve-only] forall|k: K| #[trigger] {OI}.contains_key(k) && k != {RK} && !{OFF}.contains(k) ==> {FI}.contains_key(k) && {FI}[k] == {OI}[k]',
+    ]
+
+
+def spec_convert():
+    post = '\n        &&& '.join('(' + parse_tags(c)[1] + ')' for c in reserve_clauses('ru1', 'ru0', 'ids1', 'ids0', 'wus1', 'wus0', 'tb1', 'tb0', 'unit', 'offs'))
+    return SPEC_CONVERT.replace('/*RESERVE_POST*/', post)
+
+
+SPEC_CONVERT = r"""
+    // ---- table invariant of the reservation and its step lemma (vx/batches/filter_reserve.py; nothing trusted here)
     pub(crate) type Ids = Map<K, (UnitId, UnitEntryId)>;
-    /// the id table after reserving the first k units of `us` with the slices r[cuts[i]..cuts[i+1]]
-    pub(crate) open spec fn tables_ok<R: Reader<Offset = usize>>(ru: Seq<(read::Unit<R>, UnitId)>, ids: Ids, wus: Seq<Unit>, tb: BaseId,
-        us: Seq<read::Unit<R>>, r: Seq<K>, cuts: Seq<int>, n0: int, k: int) -> bool
-    {
-        &&& logged(ru, tb, us, n0, k) && wus.len() == n0 + k
-        &&& roots_ok(ru, ids, wus, us, n0, k)
-        &&& slices_ok(ru, ids, wus, r, cuts, n0, k)
-        &&& keys_only(ids, us, r, cuts, k)
-    }
+    pub(crate) type RUs<R> = Seq<(read::Unit<R>, UnitId)>;
     /// [C19:reserve-every-unit] one (unit, id) record per input unit, in input order, ids n0, n0 + 1, ..
-    pub(crate) open spec fn logged<R: Reader<Offset = usize>>(ru: Seq<(read::Unit<R>, UnitId)>, tb: BaseId, us: Seq<read::Unit<R>>, n0: int, k: int) -> bool {
+    pub(crate) open spec fn logged<R: Reader<Offset = usize>>(ru: RUs<R>, tb: BaseId, us: Seq<read::Unit<R>>, n0: int, k: int) -> bool {
         &&& ru.len() == k
         &&& forall|i: int| 0 <= i < k ==> (#[trigger] ru[i]).0 == us[i] && ru[i].1.base() == tb && ru[i].1.ix() == n0 + i
     }
     /// [C19:reserve-every-unit] the root offset of every reserved unit names (its unit id, the root entry of the written unit)
-    pub(crate) open spec fn roots_ok<R: Reader<Offset = usize>>(ru: Seq<(read::Unit<R>, UnitId)>, ids: Ids, wus: Seq<Unit>, us: Seq<read::Unit<R>>, n0: int, k: int) -> bool {
+    pub(crate) open spec fn roots_ok<R: Reader<Offset = usize>>(ru: RUs<R>, ids: Ids, wus: Seq<Unit>, us: Seq<read::Unit<R>>, n0: int, k: int) -> bool {
         forall|i: int| 0 <= i < k ==> ids.contains_key(#[trigger] root_key(us[i].header))
             && ids[root_key(us[i].header)] == (ru[i].1, wus[n0 + i].root_id())
     }
     /// [C19:reserve-reachable-only] r[j] of slice i names (unit id i, entry id 1 + position in the slice); unit i has 1 + |slice i| ids
-    pub(crate) open spec fn slices_ok<R: Reader<Offset = usize>>(ru: Seq<(read::Unit<R>, UnitId)>, ids: Ids, wus: Seq<Unit>, r: Seq<K>, cuts: Seq<int>, n0: int, k: int) -> bool {
-        &&& forall|i: int, j: int| #![trigger cuts[i], r[j]] 0 <= i < k && cuts[i] <= j < cuts[i + 1] ==> ids.contains_key(r[j])
+    pub(crate) open spec fn slices_ok<R: Reader<Offset = usize>>(ru: RUs<R>, ids: Ids, wus: Seq<Unit>, r: Seq<K>, cuts: Seq<int>, n0: int, k: int) -> bool {
+        &&& forall|i: int, j: int| #![trigger cuts[i], r[j]] 0 <= i < k && 0 <= j < r.len() && cuts[i] <= j < cuts[i + 1] ==> ids.contains_key(r[j])
                 && ids[r[j]].0 == ru[i].1 && ids[r[j]].1.base() == wus[n0 + i].ubase() && ids[r[j]].1.ix() == 1 + j - cuts[i]
-        &&& forall|i: int| 0 <= i < k ==> (#[trigger] wus[n0 + i]).nreserved() == 1 + cuts[i + 1] - cuts[i]
+        &&& forall|i: int| #![trigger cuts[i]] 0 <= i < k ==> wus[n0 + i].nreserved() == 1 + cuts[i + 1] - cuts[i]
     }
-    /// [C19:reserve-only] nothing but roots and reachable offsets of the first k units is in the table
-    pub(crate) open spec fn keys_only<R: Reader<Offset = usize>>(ids: Ids, us: Seq<read::Unit<R>>, r: Seq<K>, cuts: Seq<int>, k: int) -> bool {
-        forall|key: K| #[trigger] ids.contains_key(key) ==> is_root_of(us, k, key) || is_slice_elem(r, cuts[k], key)
+    /// [C19:reserve-only] nothing but roots of the first k units and the first e reachable offsets is in the table
+    pub(crate) open spec fn keys_only<R: Reader<Offset = usize>>(ids: Ids, us: Seq<read::Unit<R>>, r: Seq<K>, e: int, k: int) -> bool {
+        forall|key: K| #[trigger] ids.contains_key(key) ==> is_root_of(us, k, key) || is_slice_elem(r, e, key)
     }
     pub(crate) open spec fn is_root_of<R: Reader<Offset = usize>>(us: Seq<read::Unit<R>>, k: int, key: K) -> bool {
         exists|i: int| 0 <= i < k && key == #[trigger] root_key(us[i].header)
@@ -234,16 +250,140 @@ SPEC_CONVERT = '''
     pub(crate) open spec fn is_slice_elem(r: Seq<K>, e: int, key: K) -> bool {
         exists|j: int| 0 <= j < e && key == #[trigger] r[j]
     }
-    pub assume_specification<K1, V>[std::collections::HashMap::<K1, V>::default]() -> (m: std::collections::HashMap<K1, V>)
-        ensures m@ == Map::<K1, V>::empty();
-'''
+    /// the effect of one `reserve_unit(unit, offs)` call: literally the postconditions of reserve_unit
+    pub(crate) open spec fn reserve_post<R: Reader<Offset = usize>>(ru0: RUs<R>, ids0: Ids, wus0: Seq<Unit>, tb0: BaseId,
+        ru1: RUs<R>, ids1: Ids, wus1: Seq<Unit>, tb1: BaseId, unit: read::Unit<R>, offs: Seq<K>) -> bool
+    {
+        &&& /*RESERVE_POST*/
+    }
+    /// facts about the slice r[s..e] handed to reserve_unit for unit k
+    pub(crate) proof fn lemma_slice_facts<R: Reader<Offset = usize>>(us: Seq<read::Unit<R>>, g: G, r: Seq<K>, k: int, s: int, e: int)
+        requires
+            roots_wf(us, g), reach_valid(g, r), r.no_duplicates(), 0 <= k < us.len(), 0 <= s <= e <= r.len(),
+            forall|j: int| s <= j < e ==> in_unit(us[k].header, #[trigger] r[j]),
+        ensures
+            r.subrange(s, e).no_duplicates(),
+            forall|x: K| #[trigger] r.subrange(s, e).contains(x) ==> g.contains_key(x) && in_unit(us[k].header, x),
+            forall|i: int| 0 <= i < us.len() ==> !r.subrange(s, e).contains(#[trigger] root_key(us[i].header)),
+    {
+        let sub = r.subrange(s, e);
+        assert forall|x: K| #[trigger] sub.contains(x) implies g.contains_key(x) && in_unit(us[k].header, x) by {
+            let m = choose|m: int| 0 <= m < sub.len() && sub[m] == x;
+            assert(sub[m] == r[s + m]);
+        }
+        assert forall|a: int, b: int| 0 <= a < sub.len() && 0 <= b < sub.len() && a != b implies sub[a] != sub[b] by {
+            assert(sub[a] == r[s + a] && sub[b] == r[s + b]);
+        }
+        assert forall|i: int| 0 <= i < us.len() implies !sub.contains(#[trigger] root_key(us[i].header)) by {
+            if sub.contains(root_key(us[i].header)) { assert(g.contains_key(root_key(us[i].header))); }
+        }
+    }
+    /// [C19:reserve-every-unit] one iteration keeps the log and the root registrations
+    pub(crate) proof fn lemma_step_roots<R: Reader<Offset = usize>>(us: Seq<read::Unit<R>>, g: G, r: Seq<K>, k: int, s: int, e: int,
+        tb: BaseId, n0: int, ru0: RUs<R>, ids0: Ids, wus0: Seq<Unit>, ru1: RUs<R>, ids1: Ids, wus1: Seq<Unit>, tb1: BaseId)
+        requires
+            units_ordered(us), roots_wf(us, g), reach_valid(g, r), r.no_duplicates(), 0 <= k < us.len(), 0 <= n0, 0 <= s <= e <= r.len(),
+            forall|j: int| s <= j < e ==> in_unit(us[k].header, #[trigger] r[j]),
+            logged(ru0, tb, us, n0, k), wus0.len() == n0 + k, roots_ok(ru0, ids0, wus0, us, n0, k),
+            reserve_post(ru0, ids0, wus0, tb, ru1, ids1, wus1, tb1, us[k], r.subrange(s, e)),
+        ensures
+            logged(ru1, tb, us, n0, k + 1), wus1.len() == n0 + k + 1, tb1 == tb, roots_ok(ru1, ids1, wus1, us, n0, k + 1),
+    {
+        hide(units_ordered);
+        let sub = r.subrange(s, e);
+        let rk = root_key(us[k].header);
+        lemma_slice_facts(us, g, r, k, s, e);
+        assert forall|i: int| 0 <= i < k + 1 implies (#[trigger] ru1[i]).0 == us[i] && ru1[i].1.base() == tb && ru1[i].1.ix() == n0 + i by {
+            if i < k { assert(ru1[i] == ru0[i]); }
+        }
+        assert forall|i: int| 0 <= i < k + 1 implies ids1.contains_key(#[trigger] root_key(us[i].header))
+            && ids1[root_key(us[i].header)] == (ru1[i].1, wus1[n0 + i].root_id()) by {
+            if i < k {
+                let rki = root_key(us[i].header);
+                lemma_root_in_unit(us[i].header); lemma_root_in_unit(us[k].header);
+                lemma_units_apart(us, i, k, rki, rk);
+                assert(!sub.contains(rki));
+                assert(ids0.contains_key(rki));
+                assert(ru1[i] == ru0[i] && wus1[n0 + i] == wus0[n0 + i]);
+            } else {
+                assert(!sub.contains(rk));
+            }
+        }
+    }
+    /// [C19:reserve-reachable-only] one iteration keeps the ids of the earlier slices and registers slice k with fresh ids 1, 2, ..
+    pub(crate) proof fn lemma_step_slices<R: Reader<Offset = usize>>(us: Seq<read::Unit<R>>, g: G, r: Seq<K>, cuts: Seq<int>, k: int, s: int, e: int,
+        tb: BaseId, n0: int, ru0: RUs<R>, ids0: Ids, wus0: Seq<Unit>, ru1: RUs<R>, ids1: Ids, wus1: Seq<Unit>, tb1: BaseId)
+        requires
+            units_ordered(us), roots_wf(us, g), reach_valid(g, r), r.no_duplicates(), 0 <= k < us.len(), 0 <= n0,
+            partition_ok(us, r, cuts, k), cuts[k] == s, 0 <= s <= e <= r.len(),
+            forall|j: int| s <= j < e ==> in_unit(us[k].header, #[trigger] r[j]),
+            ru0.len() == k, wus0.len() == n0 + k, slices_ok(ru0, ids0, wus0, r, cuts, n0, k),
+            reserve_post(ru0, ids0, wus0, tb, ru1, ids1, wus1, tb1, us[k], r.subrange(s, e)),
+        ensures
+            slices_ok(ru1, ids1, wus1, r, cuts.push(e), n0, k + 1),
+    {
+        hide(units_ordered);
+        let sub = r.subrange(s, e);
+        let c2 = cuts.push(e);
+        let rk = root_key(us[k].header);
+        lemma_slice_facts(us, g, r, k, s, e);
+        assert forall|i: int, j: int| #![trigger c2[i], r[j]] 0 <= i < k + 1 && 0 <= j < r.len() && c2[i] <= j < c2[i + 1] implies ids1.contains_key(r[j])
+                && ids1[r[j]].0 == ru1[i].1 && ids1[r[j]].1.base() == wus1[n0 + i].ubase() && ids1[r[j]].1.ix() == 1 + j - c2[i] by {
+            if i < k {
+                assert(c2[i] == cuts[i] && c2[i + 1] == cuts[i + 1]);
+                assert(in_unit(us[i].header, r[j]));
+                if sub.contains(r[j]) { lemma_units_apart(us, i, k, r[j], r[j]); }      // slice k lies in unit k (W-ORDER)
+                assert(g.contains_key(r[j]));
+                assert(ids0.contains_key(r[j]) && r[j] != rk);
+                assert(ru1[i] == ru0[i] && wus1[n0 + i] == wus0[n0 + i]);
+            } else {
+                assert(c2[k] == s && c2[k + 1] == e);
+                assert(sub[j - s] == r[j]);
+            }
+        }
+        assert forall|i: int| #![trigger c2[i]] 0 <= i < k + 1 implies wus1[n0 + i].nreserved() == 1 + c2[i + 1] - c2[i] by {
+            if i < k { assert(c2[i] == cuts[i] && c2[i + 1] == cuts[i + 1]); assert(wus1[n0 + i] == wus0[n0 + i]); }
+            else { assert(c2[k] == s && c2[k + 1] == e); }
+        }
+    }
+    /// [C19:reserve-only] one iteration adds the root of unit k and the slice r[s..e], nothing else
+    pub(crate) proof fn lemma_step_keys<R: Reader<Offset = usize>>(us: Seq<read::Unit<R>>, r: Seq<K>, k: int, s: int, e: int,
+        tb: BaseId, ru0: RUs<R>, ids0: Ids, wus0: Seq<Unit>, ru1: RUs<R>, ids1: Ids, wus1: Seq<Unit>, tb1: BaseId)
+        requires
+            0 <= k < us.len(), 0 <= s <= e <= r.len(), keys_only(ids0, us, r, s, k),
+            reserve_post(ru0, ids0, wus0, tb, ru1, ids1, wus1, tb1, us[k], r.subrange(s, e)),
+        ensures
+            keys_only(ids1, us, r, e, k + 1),
+    {
+        let sub = r.subrange(s, e);
+        let rk = root_key(us[k].header);
+        assert forall|key: K| #[trigger] ids1.contains_key(key) implies is_root_of(us, k + 1, key) || is_slice_elem(r, e, key) by {
+            if ids0.contains_key(key) {
+                if is_root_of(us, k, key) {
+                    let i = choose|i: int| 0 <= i < k && key == #[trigger] root_key(us[i].header);
+                    assert(key == root_key(us[i].header));
+                } else {
+                    let j = choose|j: int| 0 <= j < s && key == #[trigger] r[j];
+                    assert(key == r[j]);
+                }
+            } else if key == rk {
+                assert(key == root_key(us[k].header));
+            } else {
+                let m = choose|m: int| 0 <= m < sub.len() && sub[m] == key;
+                assert(key == r[s + m]);
+            }
+        }
+    }
+"""
 
 
 def populate_reserve(ctx, sk):
     wu = Source('write/unit.rs', ctx)
-    sk.mods[M]['uses'] += '''
+    sk.mods[M]['uses'] += """
+use crate::constants;
+use crate::read::{self, Reader, ReaderOffset};
 use crate::write::unit::{Unit, UnitTable, UnitId, UnitEntryId};
-use crate::write::{BaseId, Dwarf, LineProgram};'''
+use crate::write::{BaseId, Dwarf, LineProgram};"""
     sk.mods['fspec']['uses'] += '\nuse crate::read::UnitOffset;'
     sk.add('fspec', core.rd('specs/filter_reserve.rs'), label='fres-spec')
 
@@ -259,60 +399,111 @@ use crate::write::{BaseId, Dwarf, LineProgram};'''
     cs.prepend('#[verifier::reject_recursive_types(R)]')
     ctx.count('R-REJREC')
     sk.add(M, cs)
-    sk.add(M, SPEC_CONVERT, label='fres-tables')
+    sk.add(M, """
+    impl<'a, R: Reader<Offset = usize>> FilterUnitSection<'a, R> {
+        // ghost accessors for the private filter state
+        pub closed spec fn funits(&self) -> Seq<read::Unit<R>> { self.units@ }
+        pub closed spec fn fgraph(&self) -> G { self.deps.graph() }
+        pub closed spec fn freq(&self) -> Seq<K> { self.deps.req() }
+    }
+""", label='FilterUnitSection(ghost)')
+    sk.add(M, spec_convert(), label='fres-tables', owners=OWN)
 
     imp = wu.item(r"^    impl<'a, R: Reader<Offset = usize>> ConvertUnitSection<'a, R> \{", within=CONVERT, label='ConvertUnitSection')
-    imp.keep_only(['new_with_filter', 'reserve_unit'])
+    imp.drop(['new', 'read_unit'])      # (indented impl: keep_only's header regex does not apply)
     # R-SELF (call site): filter.py emits `get_reachable(mut self)` as a free fn `get_reachable(this)`
     imp.custom('R-SELF', 'filter.deps.get_reachable()', 'get_reachable(filter.deps)')
     imp.clean()
     imp.own(OWN)
-    imp.insert_members('''        pub closed spec fn ids(&self) -> Ids { self.entry_ids@ }
-        pub closed spec fn runits(&self) -> Seq<(read::Unit<R>, UnitId)> { self.read_units@ }
+    imp.insert_after("impl<'a, R: Reader<Offset = usize>> ConvertUnitSection<'a, R> {", """
+        pub closed spec fn ids(&self) -> Ids { self.entry_ids@ }
+        pub closed spec fn runits(&self) -> RUs<R> { self.read_units@ }
         pub closed spec fn wunits(&self) -> Seq<Unit> { self.dwarf.units.tunits() }
         pub closed spec fn wbase(&self) -> BaseId { self.dwarf.units.tbase() }
-        #[verifier::prophetic]
-        pub closed spec fn out(&self) -> Dwarf { *final(self.dwarf) }''')
+""")
     imp.insert_after('for unit in ', 'itu: ')
     imp.insert_after('for offset in ', 'ito: ')
 
     # ---------------------------------------------------------------------------------------------- reserve_unit
-    H = 'unit.header'
-    RK = f'root_key({H})'
-    N0 = 'old(self).wunits().len()'
-    NEW = f'final(self).wunits()[{N0} as int]'
-    ID = 'final(self).runits().last().1'
+    IDS, IX, RK = 'self.entry_ids@', 'ito.index@', 'root_offset'
+    TAKEN = f'offsets@.take({IX})'
     imp.splice('reserve_unit', attrs='#[verifier::loop_isolation(false)]',
-               requires=[f'root_ok({H})', 'offsets@.len() < usize::MAX'],
-               ensures=[
-                   f'[C19:reserve-unit-logged] final(self).runits() == old(self).runits().push((unit, {ID})) && {ID}.base() == old(self).wbase() && {ID}.ix() == {N0}',
-                   f'[C19:reserve-unit-logged] final(self).wunits().len() == {N0} + 1 && final(self).wbase() == old(self).wbase() '
-                   f'&& forall|i: int| 0 <= i < {N0} ==> #[trigger] final(self).wunits()[i] == old(self).wunits()[i]',
-                   f'[C19:reserve-root] offsets@.contains({RK}) || (final(self).ids().contains_key({RK}) && final(self).ids()[{RK}] == ({ID}, {NEW}.root_id()))',
-                   f'[C19:reserve-offsets] forall|j: int| 0 <= j < offsets@.len() ==> final(self).ids().contains_key(#[trigger] offsets@[j])',
-                   f'[C19:reserve-offsets] offsets@.no_duplicates() ==> forall|j: int| 0 <= j < offsets@.len() ==> '
-                   f'final(self).ids()[#[trigger] offsets@[j]].0 == {ID} && final(self).ids()[offsets@[j]].1.base() == {NEW}.ubase() && final(self).ids()[offsets@[j]].1.ix() == 1 + j',
-                   f'[C19:reserve-only] {NEW}.nreserved() == 1 + offsets@.len()',
-                   f'[C19:reserve-only] forall|k: K| #[trigger] final(self).ids().contains_key(k) ==> old(self).ids().contains_key(k) || k == {RK} || offsets@.contains(k)',
-                   f'[C19:reserve-only] forall|k: K| #[trigger] old(self).ids().contains_key(k) && k != {RK} && !offsets@.contains(k) ==> final(self).ids().contains_key(k) && final(self).ids()[k] == old(self).ids()[k]',
-               ])
+               requires=['root_ok(unit.header)', 'offsets@.len() < usize::MAX'],
+               ensures=reserve_clauses('final(self).runits()', 'old(self).runits()', 'final(self).ids()', 'old(self).ids()',
+                                       'final(self).wunits()', 'old(self).wunits()', 'final(self).wbase()', 'old(self).wbase()',
+                                       'unit', 'offsets@'),
+               before=[('let root_offset =', 'let ghost runit = unit; let ghost ids0 = self.entry_ids@;'),
+                       ('for offset in', 'let ghost ub = unit.ubase(); let ghost rid = unit.root_id();\n'
+                                         'proof { assert(root_offset == root_key(runit.header)); assert(offsets@.take(0) =~= Seq::<K>::empty()); }')],
+               loops={0: f'''invariant
+                    offsets@.len() < usize::MAX,
+                    unit.nreserved() == 1 + {IX}, unit.ubase() == ub, unit.root_id() == rid,
+                    forall|j: int| 0 <= j < {IX} ==> {IDS}.contains_key(#[trigger] offsets@[j]), // [C19:reserve-offsets]
+                    offsets@.no_duplicates() ==> forall|j: int| 0 <= j < {IX} ==> {IDS}[#[trigger] offsets@[j]].0 == unit_id && {IDS}[offsets@[j]].1.base() == ub && {IDS}[offsets@[j]].1.ix() == 1 + j, // [C19:reserve-offsets]
+                    {TAKEN}.contains({RK}) || ({IDS}.contains_key({RK}) && {IDS}[{RK}] == (unit_id, rid)), // [C19:reserve-root]
+                    forall|k: K| #[trigger] {IDS}.contains_key(k) ==> ids0.contains_key(k) || k == {RK} || {TAKEN}.contains(k), // [C19:reserve-only]
+                    forall|k: K| #[trigger] ids0.contains_key(k) && k != {RK} && !offsets@.contains(k) ==> {IDS}.contains_key(k) && {IDS}[k] == ids0[k], // [C19:reserve-only]'''})
+    fbase.insert_at_loop_body(imp, 'reserve_unit', 0, f'''let ghost i0 = {IX};
+                proof {{
+                    assert(offsets@.take(i0 + 1) =~= offsets@.take(i0).push(offsets@[i0]));
+                    lemma_push_contains(offsets@.take(i0), offsets@[i0]);
+                    assert(offsets@.contains(offsets@[i0]));
+                }}''', end=False)
+    fbase.insert_after_loop(imp, 'reserve_unit', 0, 'proof { assert(offsets@.take(offsets@.len() as int) =~= offsets@); }')
 
     # ---------------------------------------------------------------------------------------------- new_with_filter
-    US, G, REQ = 'filter.units@', 'filter.deps.graph()', 'filter.deps.req()'
+    US, G, REQ = 'filter.funits()', 'filter.fgraph()', 'filter.freq()'
     N0W = '(old(dwarf).units.tunits().len() as int)'
-    imp.splice('new_with_filter', ret='res',
+    N = f'({US}.len() as int)'
+    R = 'offsets@'
+    KK = '(itu.index as int)'
+    TABLES = 'convert.runits(), convert.ids(), convert.wunits()'
+    imp.splice('new_with_filter', ret='res', attrs='#[verifier::loop_isolation(false)]\n#[verifier::allow_complex_invariants]',
                requires=[f'section_wf({US}, {G})'],
                ensures=[
                    '[C19:reserve-total] res is Ok',
-                   f'[C19:reserve-every-unit] res matches Ok(c) ==> logged(c.runits(), old(dwarf).units.tbase(), {US}, {N0W}, {US}.len() as int) '
-                   f'&& c.wunits().len() == {N0W} + {US}.len() && roots_ok(c.runits(), c.ids(), c.wunits(), {US}, {N0W}, {US}.len() as int)',
+                   f'[C19:reserve-every-unit] res matches Ok(c) ==> logged(c.runits(), old(dwarf).units.tbase(), {US}, {N0W}, {N}) '
+                   f'&& c.wunits().len() == {N0W} + {N} && roots_ok(c.runits(), c.ids(), c.wunits(), {US}, {N0W}, {N})',
                    f'[C19:reserve-reachable-only] res matches Ok(c) ==> exists|r: Seq<K>, cuts: Seq<int>| is_reachable_list({G}, {REQ}, r) '
-                   f'&& #[trigger] partition_ok({US}, r, cuts, {US}.len() as int) && cuts[{US}.len() as int] == r.len() '
-                   f'&& slices_ok(c.runits(), c.ids(), c.wunits(), r, cuts, {N0W}, {US}.len() as int)',
-                   f'[C19:reserve-only] res matches Ok(c) ==> exists|r: Seq<K>, cuts: Seq<int>| is_reachable_list({G}, {REQ}, r) '
-                   f'&& #[trigger] partition_ok({US}, r, cuts, {US}.len() as int) && cuts[{US}.len() as int] == r.len() '
-                   f'&& keys_only(c.ids(), {US}, r, cuts, {US}.len() as int)',
-               ])
+                   f'&& #[trigger] partition_ok({US}, r, cuts, {N}) && cuts[{N}] == r.len() '
+                   f'&& slices_ok(c.runits(), c.ids(), c.wunits(), r, cuts, {N0W}, {N})',
+                   f'[C19:reserve-only] res matches Ok(c) ==> exists|r: Seq<K>| #[trigger] is_reachable_list({G}, {REQ}, r) '
+                   f'&& keys_only(c.ids(), {US}, r, r.len() as int, {N})',
+               ],
+               before=[('let mut convert = ConvertUnitSection {',
+                        f'let ghost us = {US}; let ghost g = {G}; let ghost req = {REQ}; let ghost n0 = dwarf.units.tunits().len() as int; let ghost tb = dwarf.units.tbase();')],
+               after=[('let offsets = get_reachable(filter.deps);',
+                       'let ghost mut cuts: Seq<int> = seq![0int];\n'
+                       'proof { lemma_reach_len(g, offsets@); assert(is_reachable_list(g, req, offsets@)); }')],
+               loops={
+                   0: f'''invariant
+                    0 <= end <= {R}.len(), cuts[{KK}] == end, split_inv(us, {R}, {KK}, end as int),
+                    partition_ok(us, {R}, cuts, {KK}), // [C19:reserve-reachable-only]
+                    logged(convert.runits(), tb, us, n0, {KK}), convert.wunits().len() == n0 + {KK}, convert.wbase() == tb, // [C19:reserve-every-unit]
+                    roots_ok({TABLES}, us, n0, {KK}), // [C19:reserve-every-unit]
+                    slices_ok({TABLES}, {R}, cuts, n0, {KK}), // [C19:reserve-reachable-only]
+                    keys_only(convert.ids(), us, {R}, end as int, {KK}), // [C19:reserve-only]''',
+                   1: f'''invariant
+                    start <= end <= {R}.len(),
+                    forall|j: int| start <= j < end ==> in_unit(unit.header, #[trigger] {R}[j]), // [C19:reserve-reachable-only]
+                ensures
+                    end == {R}.len() || !in_unit(unit.header, {R}[end as int]), // [C19:reserve-reachable-only]
+                decreases {R}.len() - end,'''})
+    fbase.insert_at_loop_body(imp, 'new_with_filter', 0,
+                              f'let ghost k = {KK}; let ghost ru0 = convert.runits(); let ghost ids0 = convert.ids(); let ghost wus0 = convert.wunits();\n'
+                              'proof { assert(unit == us[k]); }', end=False)
+    fbase.insert_at_loop_body(imp, 'new_with_filter', 0, f'''proof {{
+                    // the slice handed to reserve_unit is r[cuts[k]..end]: the maximal run of reachable offsets inside unit k
+                    lemma_partition_step(us, {R}, cuts, k, cuts[k], end as int); // [C19:reserve-reachable-only]
+                    lemma_step_roots(us, g, {R}, k, cuts[k], end as int, tb, n0, ru0, ids0, wus0, {TABLES}, convert.wbase()); // [C19:reserve-every-unit]
+                    lemma_step_slices(us, g, {R}, cuts, k, cuts[k], end as int, tb, n0, ru0, ids0, wus0, {TABLES}, convert.wbase()); // [C19:reserve-reachable-only]
+                    lemma_step_keys(us, {R}, k, cuts[k], end as int, tb, ru0, ids0, wus0, {TABLES}, convert.wbase()); // [C19:reserve-only]
+                    cuts = cuts.push(end as int);
+                }}''', end=True)
+    fbase.insert_after_loop(imp, 'new_with_filter', 0, f'''proof {{
+                lemma_partition_end(us, {R}, end as int);
+                assert(partition_ok(us, {R}, cuts, us.len() as int) && cuts[us.len() as int] == {R}.len());
+            }}''')
     sk.add(M, imp)
 
 
